@@ -78,9 +78,22 @@ func rangeKinds() []rkind {
 		{name: "string:defined-type", setup: []string{`type text string`, `c := text("héy")`}, hasVal: true, keyInt: true},
 		{name: "int:defined-type", setup: []string{`type count int`, `c := count(3)`}, keyInt: true, kconv: "int(%s)", defineOnly: true},
 		// literal conversions as range expressions
-		{name: "conv:runes-of-string", setup: []string{`s := "aé€😀z"`}, expr: "[]rune(s)", nowrap: true, hasVal: true, keyInt: true, vzero: "v := rune(-1)"},
-		{name: "conv:bytes-of-string", setup: []string{`s := "aé€z"`}, expr: "[]byte(s)", nowrap: true, hasVal: true, keyInt: true, vzero: "v := byte(1)"},
-		{name: "conv:string-of-bytes", setup: []string{`bs := []byte("h\xc3\xa9y\xff")`}, expr: "string(bs)", nowrap: true, hasVal: true, keyInt: true, vzero: "v := rune(-1)"},
+		// conversions COPY (string <-> []byte / []rune): writes to the source during the loop must stay invisible;
+		// conversions between slice types do not copy: writes must be visible
+		{name: "conv:runes-of-string", setup: []string{`s := "aé€😀z"`}, expr: "[]rune(s)", nowrap: true, hasVal: true, keyInt: true, vzero: "v := rune(-1)", mutate: []string{`s = ""`}},
+		{name: "conv:bytes-of-string", setup: []string{`s := "aé€z"`}, expr: "[]byte(s)", nowrap: true, hasVal: true, keyInt: true, vzero: "v := byte(1)", mutate: []string{`s = "zz"`}},
+		{name: "conv:string-of-bytes", setup: []string{`bs := []byte("h\xc3\xa9y\xff")`}, expr: "string(bs)", nowrap: true, hasVal: true, keyInt: true, vzero: "v := rune(-1)",
+			mutate: []string{`bs[1], bs[2], bs[3] = 'X', 'Y', 'Z'`, `bs = bs[:1]`, `bs = nil`, `copy(bs, "wxyz!")`}},
+		{name: "conv:defined-string-of-bytes", setup: []string{`type text string`, `bs := []byte("abcd")`}, expr: "text(bs)", nowrap: true, hasVal: true, keyInt: true, vzero: "v := rune(-1)",
+			mutate: []string{`bs[1], bs[3] = 'X', 'Z'`, `bs = append(bs[:0], "q"...)`}},
+		{name: "conv:string-of-runes", setup: []string{`rs := []rune("aé€z")`}, expr: "string(rs)", nowrap: true, hasVal: true, keyInt: true, vzero: "v := rune(-1)",
+			mutate: []string{`rs[1], rs[2] = 'X', 'Y'`, `rs = rs[:1]`}},
+		{name: "conv:string-of-defined-bytes", setup: []string{`type raw []byte`, `bs := raw("abcd")`}, expr: "string(bs)", nowrap: true, hasVal: true, keyInt: true, vzero: "v := rune(-1)",
+			mutate: []string{`bs[2] = 'X'`}},
+		{name: "conv:slice-type-of-slice", setup: []string{`type ints []int`, `xs := []int{11, 22, 33}`}, expr: "ints(xs)", nowrap: true, hasVal: true, keyInt: true,
+			mutate: []string{`xs[2] = 99`, `xs = xs[:1]`}},
+		{name: "conv:slice-of-array", setup: []string{`arr := [3]int{11, 22, 33}`}, expr: "arr[:]", nowrap: true, hasVal: true, keyInt: true,
+			mutate: []string{`arr[2] = 99`, `arr = [3]int{7, 8, 9}`}},
 		// kinds the compiler leaves native (a yield in the loop body is rejected): behaviour must stay Go's
 		{name: "ptr-array", setup: []string{`c := &[3]int{11, 22, 33}`}, hasVal: true, keyInt: true, mutate: []string{`c[2] = 99`, `c = &[3]int{7, 8, 9}`}, bodies: []string{"native", "closure", "native-break-continue"}},
 		{name: "ptr-array:nil", setup: []string{`var c *[3]int`}, hasVal: true, keyInt: true, defineOnly: true, bodies: []string{"native", "closure", "native-break-continue"}},
